@@ -22,7 +22,7 @@ import (
 type c02Case struct {
 	Prev    *tableSpec `json:"prev,omitempty"` // table written first (rewrite class); geometry of New is used
 	New     tableSpec  `json:"new"`
-	DiskSig uint32     `json:"disksig"` // pre-existing MBR disk signature bytes 440..443
+	DiskSig uint32     `json:"disksig"`           // pre-existing MBR disk signature bytes 440..443
 	SameObj bool       `json:"sameobj,omitempty"` // rewrite: read the previous GPT back, change that very object into the new table, write it again
 }
 
